@@ -16,6 +16,8 @@ CLAIM = (
     "Faithfulness half, necessary conditions only: (8) every escape the renderer emits has a parser arm producing the same character and "
     "every character the parser can produce as a literal and treats as syntax is escaped by the renderer (literal and range tables); "
     "(9) Cursor.copy carries the mutable position state (error pointers are rendered from copies); (10) Renderer implements every node kind."
+    " SKIPS: the loops of the functions in scope have no more `continue`, `break` or in-loop `return` statements than the reference "
+    "read on the unchanged tree (baselines/skips.json): a new skip means elements that were handled are no longer handled."
 )
 NOTE = (
     "Trusted base: the cursor typestate transfer functions (try_literal/peek_literal/done semantics as documented on Cursor), the frozen "
@@ -62,6 +64,13 @@ def run(ctx) -> None:
 
 
 # ---------------------------------------------------------------------------
+    ctx.rule("SKIPS", "the loops of the functions in scope have no more continue/break/return-in-loop statements than the reference read on the unchanged tree", floor=5)
+    from ..rules import skips as _skips
+    _base = _skips.load_baseline()
+    for _m in ctx.p.modules.values():
+        if _m.name.startswith("aas_core_codegen.parse.retree"):
+            for _f in _m.functions.values():
+                _skips.check_skips(ctx, _f, "SKIPS", _base)
 
 
 def _call_nodes(cfg, name: str):
